@@ -255,59 +255,69 @@ def encodeRowText (N : Names) (r : Rec) : List Char :=
      | some k => [memberText N.parent (keyMetaText N k)]
      | none => if N.parentOmit then [] else [memberText N.parent ['n', 'u', 'l', 'l']])) ++ ['}'])
 
-/-- `KeyMeta` from the members of a JSON object (unknown members ignored, `null` leaves the field) -/
-def decodeKeyMetaJ (N : Names) : KeyMeta → List (List Char × Json) → Option KeyMeta
-  | km, [] => some km
-  | km, (k, v) :: rest =>
-    match fieldIndex [N.keyId.toList, N.pCreated.toList] k with
-    | some 0 =>
-      match v with
-      | .str s => decodeKeyMetaJ N { km with id := String.ofList s } rest
-      | .null => decodeKeyMetaJ N km rest
-      | _ => none
-    | some 1 =>
-      match v with
-      | .num l => match parseInt l with
-        | some i => decodeKeyMetaJ N { km with created := i } rest
-        | none => none
-      | .null => decodeKeyMetaJ N km rest
-      | _ => none
-    | _ => decodeKeyMetaJ N km rest
+/-- a fold that stops at the first failure -/
+def foldOpt {σ α : Type} (step : σ → α → Option σ) : σ → List α → Option σ
+  | s, [] => some s
+  | s, a :: t => match step s a with
+    | some s' => foldOpt step s' t
+    | none => none
+
+/-- one member of a JSON object into `KeyMeta` (unknown members ignored, `null` leaves the field) -/
+def stepKeyMetaJ (N : Names) (km : KeyMeta) (kv : List Char × Json) : Option KeyMeta :=
+  let idx := fieldIndex [N.keyId.toList, N.pCreated.toList] kv.1
+  if idx = some 0 then
+    match kv.2 with
+    | .str s => some { km with id := String.ofList s }
+    | .null => some km
+    | _ => none
+  else if idx = some 1 then
+    match kv.2 with
+    | .num l => match parseInt l with
+      | some i => some { km with created := i }
+      | none => none
+    | .null => some km
+    | _ => none
+  else some km
+
+def decodeKeyMetaJ (N : Names) (km : KeyMeta) (kvs : List (List Char × Json)) : Option KeyMeta :=
+  foldOpt (stepKeyMetaJ N) km kvs
+
+/-- one member of a JSON object into `EnvelopeKeyRecord` -/
+def stepEkrJ (N : Names) (r : Rec) (kv : List Char × Json) : Option Rec :=
+  let idx := fieldIndex [N.revoked.toList, N.created.toList, N.key.toList, N.parent.toList] kv.1
+  if idx = some 0 then
+    match kv.2 with
+    | .bool b => some { r with revoked := b }
+    | .null => some r
+    | _ => none
+  else if idx = some 1 then
+    match kv.2 with
+    | .num l => match parseInt l with
+      | some i => some { r with created := i }
+      | none => none
+    | .null => some r
+    | _ => none
+  else if idx = some 2 then
+    match kv.2 with
+    | .str s => match b64Decode s with
+      | some bs => some { r with key := bs }
+      | none => none
+    | .null => some { r with key := [] }
+    | _ => none
+  else if idx = some 3 then
+    match kv.2 with
+    | .obj kvs =>
+      -- an existing pointer is reused (a repeated member merges into it)
+      match decodeKeyMetaJ N (r.parent.getD ⟨"", 0⟩) kvs with
+      | some km => some { r with parent := some km }
+      | none => none
+    | .null => some { r with parent := none }
+    | _ => none
+  else some r
 
 /-- `EnvelopeKeyRecord` from the members of a JSON object -/
-def decodeEkrJ (N : Names) : Rec → List (List Char × Json) → Option Rec
-  | r, [] => some r
-  | r, (k, v) :: rest =>
-    match fieldIndex [N.revoked.toList, N.created.toList, N.key.toList, N.parent.toList] k with
-    | some 0 =>
-      match v with
-      | .bool b => decodeEkrJ N { r with revoked := b } rest
-      | .null => decodeEkrJ N r rest
-      | _ => none
-    | some 1 =>
-      match v with
-      | .num l => match parseInt l with
-        | some i => decodeEkrJ N { r with created := i } rest
-        | none => none
-      | .null => decodeEkrJ N r rest
-      | _ => none
-    | some 2 =>
-      match v with
-      | .str s => match b64Decode s with
-        | some bs => decodeEkrJ N { r with key := bs } rest
-        | none => none
-      | .null => decodeEkrJ N { r with key := [] } rest
-      | _ => none
-    | some 3 =>
-      match v with
-      | .obj kvs =>
-        -- an existing pointer is reused (a repeated member merges into it)
-        match decodeKeyMetaJ N (r.parent.getD ⟨"", 0⟩) kvs with
-        | some km => decodeEkrJ N { r with parent := some km } rest
-        | none => none
-      | .null => decodeEkrJ N { r with parent := none } rest
-      | _ => none
-    | _ => decodeEkrJ N r rest
+def decodeEkrJ (N : Names) (r : Rec) (kvs : List (List Char × Json)) : Option Rec :=
+  foldOpt (stepEkrJ N) r kvs
 
 /-- `parseEnvelope` after `Scan`: `json.Unmarshal([]byte(text), &keyRecord)` with `keyRecord` a nil
 `*EnvelopeKeyRecord`: `null` leaves it nil (the caller gets `nil, nil`), an object fills a new record,
@@ -345,23 +355,23 @@ def marshalEnvelopeV2 (N : Names) (r : Rec) : Item :=
    | some k => [(N.parent, AV.m [(N.keyId, AV.s k.id), (N.pCreated, intAV k.created)])]
    | none => if N.parentOmit then [] else [(N.parent, AV.null)])
 
-def decodeKeyMetaAV (N : Names) : KeyMeta → Item → Option KeyMeta
-  | km, [] => some km
-  | km, (k, v) :: rest =>
-    match fieldIndex [N.keyId.toList, N.pCreated.toList] k.toList with
-    | some 0 =>
-      match v with
-      | .s s => decodeKeyMetaAV N { km with id := s } rest
-      | .null => decodeKeyMetaAV N { km with id := "" } rest
-      | _ => none
-    | some 1 =>
-      match v with
-      | .n l => match parseInt l.toList with
-        | some i => decodeKeyMetaAV N { km with created := i } rest
-        | none => none
-      | .null => decodeKeyMetaAV N { km with created := 0 } rest
-      | _ => none
-    | _ => decodeKeyMetaAV N km rest
+def stepKeyMetaAV (N : Names) (km : KeyMeta) (kv : String × AV) : Option KeyMeta :=
+  let idx := fieldIndex [N.keyId.toList, N.pCreated.toList] kv.1.toList
+  if idx = some 0 then
+    match kv.2 with
+    | .s s => some { km with id := s }
+    | .null => some { km with id := "" }
+    | _ => none
+  else if idx = some 1 then
+    match kv.2 with
+    | .n l => match parseInt l.toList with
+      | some i => some { km with created := i }
+      | none => none
+    | .null => some { km with created := 0 }
+    | _ => none
+  else some km
+
+def decodeKeyMetaAV (N : Names) (km : KeyMeta) (it : Item) : Option KeyMeta := foldOpt (stepKeyMetaAV N) km it
 
 /-- the envelope attributes with the key still a string (v2's `envelope` struct; v1 decodes the
 base64 on the way because the target field is a `[]byte`) -/
@@ -371,35 +381,35 @@ structure EnvS where
   key : String := ""
   parent : Option KeyMeta := none
 
-def decodeEnvAV (N : Names) : EnvS → Item → Option EnvS
-  | e, [] => some e
-  | e, (k, v) :: rest =>
-    match fieldIndex [N.revoked.toList, N.created.toList, N.key.toList, N.parent.toList] k.toList with
-    | some 0 =>
-      match v with
-      | .bool b => decodeEnvAV N { e with revoked := b } rest
-      | .null => decodeEnvAV N { e with revoked := false } rest
-      | _ => none
-    | some 1 =>
-      match v with
-      | .n l => match parseInt l.toList with
-        | some i => decodeEnvAV N { e with created := i } rest
-        | none => none
-      | .null => decodeEnvAV N { e with created := 0 } rest
-      | _ => none
-    | some 2 =>
-      match v with
-      | .s s => decodeEnvAV N { e with key := s } rest
-      | .null => decodeEnvAV N { e with key := "" } rest
-      | _ => none
-    | some 3 =>
-      match v with
-      | .m kvs => match decodeKeyMetaAV N ⟨"", 0⟩ kvs with
-        | some km => decodeEnvAV N { e with parent := some km } rest
-        | none => none
-      | .null => decodeEnvAV N { e with parent := none } rest
-      | _ => none
-    | _ => decodeEnvAV N e rest
+def stepEnvAV (N : Names) (e : EnvS) (kv : String × AV) : Option EnvS :=
+  let idx := fieldIndex [N.revoked.toList, N.created.toList, N.key.toList, N.parent.toList] kv.1.toList
+  if idx = some 0 then
+    match kv.2 with
+    | .bool b => some { e with revoked := b }
+    | .null => some { e with revoked := false }
+    | _ => none
+  else if idx = some 1 then
+    match kv.2 with
+    | .n l => match parseInt l.toList with
+      | some i => some { e with created := i }
+      | none => none
+    | .null => some { e with created := 0 }
+    | _ => none
+  else if idx = some 2 then
+    match kv.2 with
+    | .s s => some { e with key := s }
+    | .null => some { e with key := "" }
+    | _ => none
+  else if idx = some 3 then
+    match kv.2 with
+    | .m kvs => match decodeKeyMetaAV N ⟨"", 0⟩ kvs with
+      | some km => some { e with parent := some km }
+      | none => none
+    | .null => some { e with parent := none }
+    | _ => none
+  else some e
+
+def decodeEnvAV (N : Names) (e : EnvS) (it : Item) : Option EnvS := foldOpt (stepEnvAV N) e it
 
 def EnvS.toRec (e : EnvS) (id : String) : Option Rec :=
   match b64Decode e.key.toList with
@@ -424,24 +434,25 @@ structure ItemNames where
 deriving DecidableEq, Repr, Inhabited
 
 /-- v2 `decodeItem`: `attributevalue.UnmarshalMap(m, &metastoreItem{})`, nil-envelope check, base64. -/
-def decodeItemV2 (IN : ItemNames) (N : Names) (item : Item) : Option Rec :=
+def stepItemV2 (IN : ItemNames) (N : Names) (acc : String × Option EnvS) (kv : String × AV) : Option (String × Option EnvS) :=
   -- ID string, Created int64 (unused), KeyRecord *envelope
-  let step (acc : Option (String × Option EnvS)) (kv : String × AV) : Option (String × Option EnvS) :=
-    match acc with
-    | none => none
-    | some (id, env) =>
-      match fieldIndex [IN.id.toList, IN.created.toList, IN.keyRecord.toList] kv.1.toList with
-      | some 0 => match kv.2 with | .s s => some (s, env) | .null => some ("", env) | _ => none
-      | some 1 => match kv.2 with
-        | .n l => (parseInt l.toList).map fun _ => (id, env)
-        | .null => some (id, env)
-        | _ => none
-      | some 2 => match kv.2 with
-        | .m kvs => (decodeEnvAV N {} kvs).map fun e => (id, some e)
-        | .null => some (id, none)
-        | _ => none
-      | _ => some (id, env)
-  match item.foldl step (some ("", none)) with
+  let idx := fieldIndex [IN.id.toList, IN.created.toList, IN.keyRecord.toList] kv.1.toList
+  if idx = some 0 then
+    match kv.2 with | .s s => some (s, acc.2) | .null => some ("", acc.2) | _ => none
+  else if idx = some 1 then
+    match kv.2 with
+    | .n l => match parseInt l.toList with | some _ => some acc | none => none
+    | .null => some acc
+    | _ => none
+  else if idx = some 2 then
+    match kv.2 with
+    | .m kvs => match decodeEnvAV N {} kvs with | some e => some (acc.1, some e) | none => none
+    | .null => some (acc.1, none)
+    | _ => none
+  else some acc
+
+def decodeItemV2 (IN : ItemNames) (N : Names) (item : Item) : Option Rec :=
+  match foldOpt (stepItemV2 IN N) ("", none) item with
   | some (id, some e) => e.toRec id
   | _ => none                               -- includes "unexpected nil envelope key record"
 
